@@ -114,7 +114,15 @@ func canonQos(q *pairingtypes.QualityOfServiceReport) string {
 	if q == nil {
 		return "nil"
 	}
-	return q.Latency.String() + "|" + q.Availability.String() + "|" + q.Sync.String()
+	// a Dec decoded from corrupted bytes can carry a nil big.Int: it is the zero value, prints like
+	// zero in the signed text and is not a different field value
+	ds := func(d sdk.Dec) string {
+		if d.IsNil() {
+			return sdk.ZeroDec().String()
+		}
+		return d.String()
+	}
+	return ds(q.Latency) + "|" + ds(q.Availability) + "|" + ds(q.Sync)
 }
 
 // the signed fields of a relay session per the statement: CU sum, session id, relay number, epoch,
